@@ -81,20 +81,119 @@ GEN.update({
                  "-pkg", "aead/xaesgcm", "-sub", "Xaesgcm", "-vars", "derivationBlock1Prefix,derivationBlock2Prefix",
                  "-opaque", "derivePerMessageKey:a.prf.ComputePRF=prf", "-funcs", "derivePerMessageKey"],
     },
+    # wrappingSize and three small regions (older ties) + the WHOLE functions invertW / Wrap / Unwrap: round loops with the counter,
+    # the slice views into the output buffer (it := wrapped[8:]; ri := it[:8]), the unwrap padding check
     "GlueKwp": {
         "owner": ["C08"], "tool": "gluetr",
         "args": ["-ns", "TinkVerif.Gen.GlueKwp",
-                 "-pkg", "kwp/subtle", "-sub", "KwpGo", "-consts", "MinWrapSize,MaxWrapSize,roundCount,ivPrefix", "-funcs", "wrappingSize",
+                 "-pkg", "kwp/subtle", "-sub", "KwpGo", "-consts", "MinWrapSize,MaxWrapSize,roundCount,ivPrefix",
+                 "-funcs", "wrappingSize,invertW,Wrap,Unwrap",
+                 "-block", "Wrap:kwp.block.Encrypt=E", "-block", "invertW:kwp.block.Decrypt=D",
                  "-region", r"wrapBuffer=Wrap|^wrapped := make|^copy\(wrapped\[8:\], data\)|wrapped",
                  "-region", r"aivInit=Wrap|^var buf \[16\]byte|^binary\.BigEndian\.PutUint32\(buf\[4:8\]|buf",
                  "-region", r"roundXor=Wrap|^roundCounter\+\+|^subtle\.XORBytes\(buf\[4:8\]|buf,roundCounter,roundCounterBytes"],
     },
+    # streamingaead/decrypt_reader.go: the record / replay buffer `unreader` (whole methods, stateful translation; the source
+    # reader is an external object with an abstract state)
+    "GlueUnreader": {
+        "owner": ["C05", "C07", "C14"], "tool": "gluetr",
+        "args": ["-ns", "TinkVerif.Gen.GlueUnreader",
+                 "-pkg", "streamingaead", "-sub", "Streamingaead", "-recv", "unreader", "-stateful", "Read,unread,disable",
+                 "-extern", "Read:u.r.Read=rd@u.r:read", "-funcs", "Read,unread,disable"],
+    },
+    # whole functions New / Compute / XOREndAndCompute (the block cipher is the parameter E; aes.NewCipher is an abstract
+    # constructor); the two small regions are kept for the older tie theorems
     "GlueCmac": {
         "owner": ["C04", "C08", "C15"], "tool": "gluetr",
         "args": ["-ns", "TinkVerif.Gen.GlueCmac",
-                 "-pkg", "internal/mac/aescmac", "-sub", "Aescmac", "-consts", "BlockSize,mul,pad", "-funcs", "mulByX",
+                 "-pkg", "internal/mac/aescmac", "-sub", "Aescmac", "-consts", "BlockSize,mul,pad",
+                 "-funcs", "mulByX,New,Compute,XOREndAndCompute",
+                 "-abstract", "New:aes.NewCipher", "-block", "New:cmac.bc.Encrypt=E", "-block", "Compute:c.bc.Encrypt=E",
+                 "-block", "XOREndAndCompute:c.bc.Encrypt=E",
                  "-region", r"lastBlockInit=Compute|^var lastBlock |^var lastBlock |lastBlock",
                  "-region", r"padLast=Compute|^copy\(lastBlock\[:\], data\[:\]\)|^lastBlock\[len\(data\)\] = pad|lastBlock"],
+    },
+    # internal/aead/aesctr.go whole functions: IV padding, Encrypt / Decrypt length checks and slicing.  crypto/cipher's CTR is
+    # the parameter ctr (keyed by the IV handed to cipher.NewCTR), random.MustRand the parameter rand.
+    "GlueCtr": {
+        "owner": ["C01", "C02"], "tool": "gluetr",
+        "args": ["-ns", "TinkVerif.Gen.GlueCtr",
+                 "-pkg", "internal/aead", "-sub", "Aesctr", "-recv", "AESCTR", "-consts", "aesCTRMinIVSize",
+                 "-repr", "crypto/cipher.Stream=Bytes", "-ctor", "newCipher:cipher.NewCTR=1",
+                 "-funcs", "newCipher,Encrypt,Decrypt",
+                 "-fill", "Encrypt:random.MustRand=rand", "-apply", "Encrypt:stream.XORKeyStream=ctr",
+                 "-apply", "Decrypt:stream.XORKeyStream=ctr"],
+    },
+    # encrypt-then-MAC framing, whole functions: aead/aesctrhmac fullAEAD and aead/subtle EncryptThenAuthenticate
+    "GlueEtm": {
+        "owner": ["C01", "C02"], "tool": "gluetr",
+        "args": ["-ns", "TinkVerif.Gen.GlueEtm",
+                 "-pkg", "aead/aesctrhmac", "-sub", "AesctrhmacFull", "-funcs", "aadSizeInBits,Encrypt,Decrypt",
+                 "-inout", "Encrypt:a.aesCTR.Encrypt=ctrEnc", "-opaque", "Encrypt:a.hmac.ComputeMAC=hmac",
+                 "-opaque", "Decrypt:a.hmac.VerifyMAC=hmacVerify", "-inout", "Decrypt:a.aesCTR.Decrypt=ctrDec",
+                 "-pkg", "aead/subtle", "-sub", "AeadSubtle", "-recv", "EncryptThenAuthenticate", "-consts", "minTagSizeInBytes",
+                 "-funcs", "uint64ToByte,Encrypt,Decrypt",
+                 "-opaque", "Encrypt:e.indCPACipher.Encrypt=indEnc", "-opaque", "Encrypt:e.mac.ComputeMAC=mac",
+                 "-opaque", "Decrypt:e.mac.VerifyMAC=macVerify", "-opaque", "Decrypt:e.indCPACipher.Decrypt=indDec"],
+    },
+    # streamingaead/subtle/noncebased whole methods Writer.Write / Close, Reader.Read (stateful translation: receiver fields are
+    # state; the underlying io.Writer / io.Reader are external objects; the segment ciphers are opaque)
+    "GlueStreamSeg": {
+        "owner": ["C07"], "tool": "gluetr",
+        "args": ["-ns", "TinkVerif.Gen.GlueStreamSeg",
+                 "-pkg", "streamingaead/subtle/noncebased", "-sub", "NoncebasedSeg",
+                 "-errcodes", "io.EOF=2,io.ErrUnexpectedEOF=3,ErrCiphertextSegmentTooShort=4,ErrTooManySegments=5,ErrNonceSizeTooShort=6",
+                 "-funcs", "generateSegmentNonce,Write,Close,Read", "-stateful", "Write,Close,Read",
+                 "-extern", "Write:w.w.Write=sink@w.w:write", "-extern", "Close:w.w.Write=sink@w.w:write",
+                 "-extern", "Read:io.ReadFull=readFull@r.r:read",
+                 "-opaque", "Write:w.segmentEncrypterWithDst.EncryptSegmentWithDst=encDst",
+                 "-opaque", "Write:w.segmentEncrypter.EncryptSegment=enc",
+                 "-opaque", "Close:w.segmentEncrypterWithDst.EncryptSegmentWithDst=encDst",
+                 "-opaque", "Close:w.segmentEncrypter.EncryptSegment=enc",
+                 "-opaque", "Read:r.segmentDecrypterWithDst.DecryptSegmentWithDst=decDst",
+                 "-opaque", "Read:r.segmentDecrypter.DecryptSegment=dec"],
+    },
+    # the functions through which randomness is drawn: every byte requested is one byte of the source, one draw per call
+    "GlueRand": {
+        "owner": ["C20"], "tool": "gluetr",
+        "args": ["-ns", "TinkVerif.Gen.GlueRand",
+                 "-pkg", "internal/random", "-sub", "RandomInt", "-funcs", "MustRand", "-fill", "MustRand:rand.Read=rand",
+                 "-pkg", "subtle/random", "-sub", "RandomSubtle", "-funcs", "GetRandomBytes,GetRandomUint32",
+                 "-fill", "GetRandomBytes:random.MustRand=rand", "-fill", "GetRandomUint32:random.MustRand=rand",
+                 "-pkg", "secretdata", "-sub", "Secretdata", "-funcs", "NewBytesFromRand", "-fill", "NewBytesFromRand:rand.Read=rand"],
+    },
+    # MAC wrappers, whole functions: LEGACY suffix, prefix framing, tag truncation, parameter guards
+    "GlueMacWrap": {
+        "owner": ["C04"], "tool": "gluetr",
+        "args": ["-ns", "TinkVerif.Gen.GlueMacWrap"] + sum((
+                 ["-pkg", p, "-sub", sub, "-consts", "VariantTink,VariantCrunchy,VariantLegacy,VariantNoPrefix",
+                  "-funcs", "message,ComputeMAC,VerifyMAC", "-opaque", "ComputeMAC:m.rawMAC.ComputeMAC=raw",
+                  "-opaque", "VerifyMAC:m.rawMAC.VerifyMAC=rawVerify"]
+                 for p, sub in (("mac/aescmac", "AescmacMac"), ("mac/hmac", "HmacMac"))), []) + [
+                 "-pkg", "mac/subtle", "-sub", "MacSubtle", "-recv", "AESCMAC",
+                 "-consts", "minCMACKeySizeInBytes,recommendedCMACKeySizeInBytes,minTagLengthInBytes,maxTagLengthInBytes",
+                 "-funcs", "ValidateCMACParams,ComputeMAC,VerifyMAC",
+                 "-opaque", "ComputeMAC:a.cmac.Compute=cmac", "-opaque", "VerifyMAC:a.cmac.Compute=cmac"],
+    },
+    # daead/subtle/aes_siv.go whole functions (s2v, ctrCrypt IV masking, Encrypt/Decrypt slicing and size checks) and the
+    # daead/aessiv prefix wrapper.  CMAC (tied in GlueCmac) and crypto/cipher's CTR are parameters.
+    "GlueSiv": {
+        "owner": ["C08"], "tool": "gluetr",
+        "args": ["-ns", "TinkVerif.Gen.GlueSiv",
+                 "-pkg", "daead/subtle", "-sub", "SivGo", "-consts", "AESSIVKeySize", "-vars", "zeroBlock",
+                 "-repr", "crypto/cipher.Stream=Bytes",
+                 "-funcs", "multiplyByX,s2v,ctrCrypt,EncryptDeterministically,DecryptDeterministically",
+                 "-opaque", "s2v:asc.cmac.Compute=cmac", "-opaque", "s2v:asc.cmac.XOREndAndCompute=xorEnd",
+                 "-abstract", "ctrCrypt:aes.NewCipher", "-ctor", "ctrCrypt:cipher.NewCTR=1", "-apply", "ctrCrypt:steam.XORKeyStream=ctr",
+                 "-pkg", "daead/aessiv", "-sub", "AessivFull", "-funcs", "EncryptDeterministically,DecryptDeterministically",
+                 "-opaque", "EncryptDeterministically:a.rawAESSIV.EncryptDeterministically=rawEnc",
+                 "-opaque", "DecryptDeterministically:a.rawAESSIV.DecryptDeterministically=rawDec"],
+    },
+    "GluePrf": {
+        "owner": ["C15"], "tool": "gluetr",
+        "args": ["-ns", "TinkVerif.Gen.GluePrf",
+                 "-pkg", "prf/subtle", "-sub", "PrfSubtle", "-recv", "AESCMACPRF", "-funcs", "ValidateAESCMACPRFParams,ComputePRF",
+                 "-opaque", "ComputePRF:a.cmac.Compute=cmac"],
     },
     "GlueHpke": {
         "owner": ["C06"], "tool": "gluetr",
